@@ -48,15 +48,19 @@ Definition replaces_program (e : event) : bool :=
   | _ => false
   end.
 
+Ltac close_inv Hi :=
+  intros; first [ discriminate | split; congruence | apply Hi; congruence
+                | exfalso; destruct (Hi eq_refl eq_refl) as [X Y]; congruence | auto ].
+
 Lemma inv_step_direct s o : inv s -> inv (st (estep s (Direct o))).
 Proof.
   unfold inv. intros Hi.
-  destruct o as [ | |r| |m| | | | | |v| | | |v| | | |r|em|hl|hl|f|f|f| |rs| | | | ];
+  destruct s as [p a r pr se t]; unfold estep, set_run; cbn [protected allow_protect run_mode prog secret tainted] in *.
+  destruct o as [ | |r'| |m| | | | | |v| | | |v| | | |r'|em|hl|hl|f|f|f| |rs| | | | ];
     try destruct m; try destruct f; try destruct em; try destruct hl;
-    destr_state s; open_step; cbn in Hi |- *; split_ifs;
+    destruct p, a, se, t; open_step; split_ifs;
     cbn [protected allow_protect run_mode prog secret tainted fst snd negb andb orb] in *;
-    intros; try (split; congruence); try (apply Hi; congruence); try discriminate; auto;
-    try (exfalso; destruct (Hi eq_refl eq_refl) as [X Y]; congruence).
+    close_inv Hi.
 Qed.
 
 Lemma inv_step_prog s o : inv s -> self_unprotect (Prog o) = false -> inv (st (estep s (Prog o))).
